@@ -135,7 +135,7 @@ def preset(pid, tier):
                   NextKinds=ALL_NEXT if pid == 'C05' else (S(['BeginBlock', 'Redeliver']) if pid == 'C04' else S(['BeginBlock'])))
         simc = did(Accts=S(['a1', 'a2', 'a3']), Dids=S(['d1', 'd2', 'dc']), ViewDids=S(['d1', 'd2', 'dc']),
                    DocNames=S(['A1', 'A2', 'B12', 'C1', 'D2', 'E1', 'F12', 'R1', 'U1', 'X1', 'N0', 'EMP']), ForeignVm=True, NearProofs=True, MaxDeliver=30, MaxHeight=6, NextKinds=ALL_NEXT_R, FailKeep=25)
-        tourc = did(DocNames=S(['A1', 'A2', 'F12', 'U1']), Keys=S(['k1', 'k2']) if q else S(['k1', 'k2', 'k3']), MaxDeliver=2 if q else 3, MaxHeight=2)     # thorough: one delivery deeper, a third key
+        tourc = did(DocNames=S(['A1', 'A2', 'F12', 'U1']), Keys=S(['k1', 'k2']) if q else S(['k1', 'k2', 'k3']), MaxDeliver=3 if (not q and pid == 'C03') else 2, MaxHeight=2)   # thorough: a third key; C03 also one delivery deeper (598k trace steps, ~25 min idle)
         if pid == 'C11':
             # the read operation is also asked for dp, a valid identifier that is a proper prefix of d1's and never registered
             simc = dict(simc, ViewDids=simc['ViewDids'] | S(['dp']))
